@@ -1,8 +1,9 @@
 /* C13 binding: replays TLC-generated load/link behaviours of spec/MIRLink.tla on a real MIR context.
    Module <s,v> is built through the API from the declaration list of its shape: an exported or local
-   function `n` returns 10000*(n+1)+100*s+v, a data item `n` holds the same number; per module the
+   function `n` returns 10000*(n+1)+100*s+v, a data item `n` holds the same number K (a data section `n`
+   is `n: i64 K` followed by the anonymous items `i64 K+1` and `i32 K+2` and must be one block); per module the
    observers  entry/late (store the address of every import/forward into a buffer), call_<n>
-   (MIR_CALL of the import) and inl_<n> (MIR_INLINE of the import) are appended.  After every Link
+   (MIR_CALL of the import), inl_<n> (MIR_INLINE of the import) and rd_<n> (loads i64 at import + offset) are appended.  After every Link
    the observers of every module linked so far are run (MIR_interp, or the generated code when the
    engine is 1) and compared with the model's `bound`; error verdicts are compared through an error
    function that longjmps (the context is abandoned after an error: all its memory is dropped through
@@ -10,7 +11,7 @@
 
    Input (stdin), tokens:
      C <case> <engine>
-     L <s> <v> <nd> {<kind> <name>}* <cerr> <err>        kind: 0 f 1 d 2 i 3 e 4 w
+     L <s> <v> <nd> {<kind> <name>}* <cerr> <err>        kind: 0 f 1 d 2 i 3 e 4 w 5 s
      X <name> <id>
      P <b>
      K <useRes> <Rmask> <err> <ncalls> {<name>}* <nb> {<s> <v> <n> <t> <ds> <dv> <dk>}*   t: 0 mir 1 ext 2 res
@@ -127,7 +128,8 @@ static void *resolver (const char *name) {
 typedef struct {
   int s, v, linked, nrefs, refs[NN], have_bound;
   MIR_module_t m;
-  MIR_item_t def[NN], ref[NN], entry, late, call[NN], inl[NN];
+  MIR_item_t def[NN], ref[NN], entry, late, call[NN], inl[NN], rd[NN];
+  int defmulti[NN];             /* the definition is a data section of three items */
   int defkind[NN];              /* 0 func 1 data -1 none */
   int b_t[NN], b_s[NN], b_v[NN], b_k[NN]; /* last model binding per name */
 } inst_t;
@@ -172,6 +174,24 @@ static MIR_item_t call_func (inst_t *in, int n, MIR_item_t proto, MIR_insn_code_
   return f;
 }
 
+static MIR_item_t rd_func (inst_t *in, int n) { /* rd_<n> (off): the i64 at (address of the import) + off */
+  char name[32];
+  MIR_type_t i64 = MIR_T_I64;
+  MIR_item_t f;
+  MIR_reg_t off, t, r;
+  sprintf (name, "rd_%s", nm[n]);
+  f = MIR_new_func (ctx, name, 1, &i64, 1, MIR_T_I64, "off");
+  off = MIR_reg (ctx, "off", f->u.func);
+  t = MIR_new_func_reg (ctx, f->u.func, MIR_T_I64, "t");
+  r = MIR_new_func_reg (ctx, f->u.func, MIR_T_I64, "r");
+  MIR_append_insn (ctx, f, MIR_new_insn (ctx, MIR_MOV, MIR_new_reg_op (ctx, t), MIR_new_ref_op (ctx, in->ref[n])));
+  MIR_append_insn (ctx, f, MIR_new_insn (ctx, MIR_ADD, MIR_new_reg_op (ctx, t), MIR_new_reg_op (ctx, t), MIR_new_reg_op (ctx, off)));
+  MIR_append_insn (ctx, f, MIR_new_insn (ctx, MIR_MOV, MIR_new_reg_op (ctx, r), MIR_new_mem_op (ctx, MIR_T_I64, 0, t, 0, 1)));
+  MIR_append_insn (ctx, f, MIR_new_ret_insn (ctx, 1, MIR_new_reg_op (ctx, r)));
+  MIR_finish_func (ctx);
+  return f;
+}
+
 /* builds and loads one module; everything runs under the caller's trap */
 static void build_module (inst_t *in, int nd, int *kinds, int *names) {
   char name[32];
@@ -191,6 +211,14 @@ static void build_module (inst_t *in, int nd, int *kinds, int *names) {
       in->def[n] = it; in->defkind[n] = 0;
       break;
     case 1: in->def[n] = MIR_new_data (ctx, nm[n], MIR_T_I64, 1, &k); in->defkind[n] = 1; break;
+    case 5: {
+      int64_t k1 = k + 1;
+      int32_t k2 = (int32_t) (k + 2);
+      in->def[n] = MIR_new_data (ctx, nm[n], MIR_T_I64, 1, &k); in->defkind[n] = 1; in->defmulti[n] = 1;
+      MIR_new_data (ctx, NULL, MIR_T_I64, 1, &k1);
+      MIR_new_data (ctx, NULL, MIR_T_I32, 1, &k2);
+      break;
+    }
     case 2: in->ref[n] = MIR_new_import (ctx, nm[n]); break;
     case 3: MIR_new_export (ctx, nm[n]); break;
     case 4: it = MIR_new_forward (ctx, nm[n]); if (in->ref[n] == NULL) in->ref[n] = it; break;
@@ -207,6 +235,7 @@ static void build_module (inst_t *in, int nd, int *kinds, int *names) {
   for (int k = 0; k < in->nrefs; k++) {
     in->call[in->refs[k]] = call_func (in, in->refs[k], proto, MIR_CALL, "call");
     in->inl[in->refs[k]] = call_func (in, in->refs[k], proto, MIR_INLINE, "inl");
+    in->rd[in->refs[k]] = rd_func (in, in->refs[k]);
   }
   MIR_finish_module (ctx);
 }
@@ -215,6 +244,13 @@ static int64_t run0 (MIR_item_t f) { /* function without arguments returning i64
   MIR_val_t res;
   if (engine == 1) return ((int64_t (*) (void)) f->addr) ();
   MIR_interp_arr (ctx, f, &res, 0, NULL);
+  return res.i;
+}
+static int64_t run1 (MIR_item_t f, int64_t a) { /* function with one i64 argument returning i64 */
+  MIR_val_t res, arg;
+  if (engine == 1) return ((int64_t (*) (int64_t)) f->addr) (a);
+  arg.i = a;
+  MIR_interp_arr (ctx, f, &res, 1, &arg);
   return res.i;
 }
 static void run_addr (MIR_item_t f, int64_t *buf) {
@@ -271,7 +307,14 @@ static void observe (inst_t *in, MIR_item_t afunc, const char *how, int calls_p)
       break;
     }
     if (!is_func) {
-      if (*(int64_t *) exp != val) FAIL ("data_value", "data %s holds %ld expected %ld", nm[n], (long) *(int64_t *) exp, (long) val);
+      inst_t *d = in->b_t[n] == 0 ? find_inst (in->b_s[n], in->b_v[n]) : NULL;
+      if (*(int64_t *) exp != val) { FAIL ("data_value", "data %s holds %ld expected %ld", nm[n], (long) *(int64_t *) exp, (long) val); break; }
+      if (!calls_p) continue;
+      if ((got = run1 (in->rd[n], 0)) != val) { FAIL ("data_read", "%s %s read from m%d_%d gives %ld expected %ld", what, nm[n], in->s, in->v, (long) got, (long) val); break; }
+      if (d != NULL && d->defmulti[n]) { /* the name stands for the whole block: the anonymous continuation follows */
+        if ((got = run1 (in->rd[n], 8)) != val + 1) { FAIL ("data_read", "%s %s + 8 read from m%d_%d gives %ld expected %ld", what, nm[n], in->s, in->v, (long) got, (long) (val + 1)); break; }
+        if (*(int32_t *) ((char *) exp + 16) != (int32_t) (val + 2)) { FAIL ("data_value", "third item of section %s holds %d", nm[n], *(int32_t *) ((char *) exp + 16)); break; }
+      }
       continue;
     }
     if (!calls_p) continue;
